@@ -143,6 +143,8 @@ def plan(tier, seed):
                          'weight': 2 ** n * n ** 3 * 5 / k})
     for p in range(1, b['s6c'] + 1):
         jobs.append({'space': 'S6c', 'period': p, 'weight': 2 ** p * 3000})
+    for i in range(16):
+        jobs.append({'space': 'S8', 'shard': i, 'of': 16, 'weight': 4000})
     for n in range(1, b.get('s7', 7) + 1):
         for fam in range(len(LEAF_FAMILIES)):
             jobs.append({'space': 'S7', 'len': n, 'family': fam,
@@ -247,6 +249,52 @@ def run_S1(cx, job):
     for tokens in core.shard_iter(iter(sents), job['shard'], job['of']):
         text, _, _ = _sentence_case(cx, 'S1', tokens)
         cx.acc.sample('S1', text)
+
+
+# S8: rules are parsed one after the other by one process - each on its own.
+# Before every battery of valid rules a NON-sentence is parsed (every token
+# sequence of <= 5 tokens that the grammar rejects, in three leaf styles);
+# the valid rules must still decide as the language says.
+S8_BATTERY = [('L', 'and', 'L'), ('L', 'or', 'L'), ('not', 'L'),
+              ('(', 'L', ')'), ('L', 'and', '(', 'L', 'or', 'L', ')'),
+              ('not', '(', 'L', 'and', 'L', ')', 'or', 'L'),
+              ('L', 'or', 'L', 'and', 'not', 'L'),
+              ('(', '(', 'L', ')', ')', 'and', 'L')]
+
+
+def run_S8(cx, job):
+    kinds = {'(': 'LP', ')': 'RP', 'and': 'AND', 'or': 'OR', 'not': 'NOT',
+             'L': 'LEAF'}
+    battery = []
+    for toks in S8_BATTERY:
+        k = toks.count('L')
+        leafs = ['role:' + cx.names[i] for i in range(k)]
+        text = lang.to_text(toks, leafs)
+        battery.append((text, lang.parse(lang.lex(text)), k))
+    idx = 0
+    for n in range(1, 6):
+        for tup in itertools.product(lang.SIGMA, repeat=n):
+            if lang.accepts([(kinds[t], t) for t in tup]):
+                continue
+            idx += 1
+            if idx % job['of'] != job['shard']:
+                continue
+            bad = lang.to_text(tup, ['role:' + cx.names[i % 4]
+                                     for i in range(tup.count('L'))])
+            try:
+                cx.parse_rule(bad)
+                cx.policy.Rules.from_dict({'bad': bad, 'bad2': [[bad]]})
+            except Exception:
+                pass                      # C02's business, not this space's
+            text, ast, k = battery[idx % len(battery)]
+            cx.check_rule('S8', text, k,
+                          lambda roles, ast=ast: lang.evaluate(
+                              ast, lambda leaf: leaf[5:] in roles),
+                          case={'rule': text, 'parsed_before': bad},
+                          routes=('enforce',),
+                          key='S8|after-a-non-sentence|%s' % ' '.join(
+                              S8_BATTERY[idx % len(battery)]))
+    cx.acc.sample('S8', {'battery': [b[0] for b in battery]})
 
 
 # S7: the leaves need not be role checks.  Families of leaf texts that are
